@@ -13,6 +13,7 @@ import (
 	"github.com/libsv/go-bk/bec"
 	"github.com/libsv/go-bt/v2"
 	"github.com/libsv/go-bt/v2/bscript"
+	"github.com/libsv/go-bt/v2/sighash"
 	"github.com/libsv/go-bt/v2/unlocker"
 
 	"verif/harness/common"
@@ -440,6 +441,61 @@ type signedTwin struct {
 	Keys []string     `json:"keys"`
 }
 
+// resignCases: FillAllInputs signs EVERY input again, also those that already carry a signature. The estimate
+// took the present unlocking script at face value; the new signature (over a different digest when the first
+// one used another hash type or the transaction changed in between) can be one or two bytes longer. Stated
+// literally ("never smaller than its real size once signed by the library") that is a violation; it is
+// reported under its own site. Fixed reproductions plus a seeded sample.
+func resignCases(r *common.Rand, n int) {
+	ctx := context.Background()
+	run := func(name string, key []byte, vouts []uint32, flag sighash.Flag, change bool) {
+		priv, pub := bec.PrivKeyFromBytes(bec.S256(), key)
+		lock, err := bscript.NewP2PKHFromPubKeyEC(pub)
+		if err != nil {
+			panic(err)
+		}
+		tx := bt.NewTx()
+		for _, v := range vouts {
+			if err := tx.FromUTXOs(&bt.UTXO{TxID: make([]byte, 32), Vout: v, LockingScript: lock, Satoshis: 50000}); err != nil {
+				panic(err)
+			}
+		}
+		tx.AddOutput(&bt.Output{Satoshis: 1000, LockingScript: lock})
+		if err := tx.FillInput(ctx, &unlocker.Simple{PrivateKey: priv}, bt.UnlockerParams{InputIdx: 0, SigHashFlags: flag}); err != nil {
+			panic(err)
+		}
+		fq := feegen.Q(1, 1, 1, 1).Build()
+		if change {
+			if err := tx.Change(lock, fq); err != nil {
+				panic(err)
+			}
+		}
+		est, err := tx.EstimateSize()
+		if err != nil {
+			panic(err)
+		}
+		enoughBefore, _ := tx.EstimateIsFeePaidEnough(fq)
+		if err := tx.FillAllInputs(ctx, &unlocker.Getter{PrivateKey: priv}); err != nil {
+			panic(err)
+		}
+		signed := tx.Size()
+		enoughAfter, _ := tx.IsFeePaidEnough(fq)
+		c.Tally(fmt.Sprintf("resign/%s/est-signed=%d", name, est-signed))
+		in := map[string]interface{}{"kind": "resign/" + name, "key": common.Hex(key), "vouts": vouts, "presigned_flag": int(flag), "change": change}
+		if est < signed {
+			c.Violate("FillAllInputs/re-signed-input-longer-than-estimated", fmt.Sprintf("estimate %d < size %d after FillAllInputs re-signed the pre-signed input (EstimateIsFeePaidEnough %v before, IsFeePaidEnough %v after)", est, signed, enoughBefore, enoughAfter), in)
+		}
+		c.Case("", in, fmt.Sprintf("resign|%x|%v|%d|%v", key, vouts, flag, change), true)
+	}
+	one := append(make([]byte, 31), 1)
+	run("fixed", one, []uint32{26, 1026}, sighash.NoneForkID, true)
+	run("fixed", one, []uint32{3, 1003}, sighash.AllForkID|sighash.AnyOneCanPay, false)
+	for k := 0; k < n; k++ {
+		run("sampled", r.Bytes(32), []uint32{uint32(r.Intn(2000)), uint32(2000 + r.Intn(2000))},
+			[]sighash.Flag{sighash.NoneForkID, sighash.SingleForkID, sighash.AllForkID | sighash.AnyOneCanPay}[r.Intn(3)], r.Bool())
+	}
+}
+
 func genSignedCases(r *common.Rand, n int) {
 	ctx := context.Background()
 	order := bec.S256().N
@@ -617,9 +673,10 @@ func main() {
 	genClassCases(r.Fork(), nClass)
 	genDerCases(r.Fork(), nDer)
 	genSignedCases(r.Fork(), nSigned)
+	resignCases(r.Fork(), nSigned/2)
 	if c.Mode == "gen" {
 		abortCase()
 	}
-	c.Stats.Rule = "size cases: 0..3 inputs (unsigned / signed with 1..253-byte scripts / P2PKH, P2PKH-inscription, nil, empty, mutated or random previous script, the ord envelope behind a non-P2PKH script) x 0..4 outputs or 252..254 identical outputs (P2PKH, OP_RETURN and OP_FALSE OP_RETURN with payloads {0,1,3,75,76,220,255,256,1000,70000}, near-miss prefixes, random) x 9 quotes (1/20..50 sat/byte, unequal std/data; one case in three with arbitrary rates: 1..1000 satoshis per {3,7,10,100,250,999,1000} bytes, standard and data drawn separately) x amount relations {out>in, fee-1, =fee, fee+1, =out, ample} against the real or the estimated size, plus missing fee type, zero denominator, wrapping products and totals; classification cases: every 1-bit mutation position of a P2PKH-inscription, P2PKH mutations, truncations, push-data edge scripts; DER: 11x11 boundary (r,s) grid + random; signed cases: 1..3 inputs locked to a random key, optionally partially signed first, optionally decoded from the extended format first (unsigned inputs then carry an empty non-nil script), signed by unlocker.Simple / FillAllInputs, (r,s) re-parsed from the script. distinct = distinct (tx, quote) / script / (r,s); non-trivial = transactions with at least one input or output, non-empty scripts, all signed cases"
+	c.Stats.Rule = "size cases: 0..3 inputs (unsigned / signed with 1..253-byte scripts / P2PKH, P2PKH-inscription, nil, empty, mutated or random previous script, the ord envelope behind a non-P2PKH script) x 0..4 outputs or 252..254 identical outputs (P2PKH, OP_RETURN and OP_FALSE OP_RETURN with payloads {0,1,3,75,76,220,255,256,1000,70000}, near-miss prefixes, random) x 9 quotes (1/20..50 sat/byte, unequal std/data; one case in three with arbitrary rates: 1..1000 satoshis per {3,7,10,100,250,999,1000} bytes, standard and data drawn separately) x amount relations {out>in, fee-1, =fee, fee+1, =out, ample} against the real or the estimated size, plus missing fee type, zero denominator, wrapping products and totals; classification cases: every 1-bit mutation position of a P2PKH-inscription, P2PKH mutations, truncations, push-data edge scripts; DER: 11x11 boundary (r,s) grid + random; signed cases: 1..3 inputs locked to a random key, optionally partially signed first, optionally decoded from the extended format first (unsigned inputs then carry an empty non-nil script), signed by unlocker.Simple / FillAllInputs, (r,s) re-parsed from the script. re-sign cases: input 0 pre-signed with NONE / SINGLE / ALL|ANYONECANPAY, optionally a change output added, then FillAllInputs (which signs every input again) — two fixed reproductions and a seeded sample. distinct = distinct (tx, quote) / script / (r,s); non-trivial = transactions with at least one input or output, non-empty scripts, all signed cases"
 	c.Finish()
 }
